@@ -42,6 +42,7 @@ import (
 	"path/filepath"
 	"runtime/debug"
 	"sort"
+	"strconv"
 	"strings"
 	"sync"
 	"syscall"
@@ -417,55 +418,46 @@ func tarOffsets(rng *rand.Rand, l, max int) []int {
 	return sortedInts(m)
 }
 
-// countingReader hides everything but Read (no Seek: archive/tar must read, not skip) and counts.
-type countingReader struct {
-	r io.Reader
-	n int
-}
-
-func (c *countingReader) Read(p []byte) (int, error) {
-	n, err := c.r.Read(p)
-	c.n += n
-	return n, err
-}
-
-// tarCutPoints walks the raw tar and returns the offsets at which a stream that simply stops is
-// still a syntactically clean sequence of whole entries: 0, the padded end of every entry
-// (`boundary`), and — for entries whose data does not fill its last block — offsets from the end
-// of the data up to the padded end (`padding`: data end, one byte further, one byte before the
-// next header). Every stored file is complete in a stream cut there; what is missing is every
-// later entry and the end-of-archive footer.
+// tarCutPoints walks the raw tar block by block (every header block, including the PAX / GNU
+// meta entries that precede an entry with a long or non-ASCII name) and returns the offsets at
+// which a stream that simply stops is still a syntactically clean sequence of whole raw entries:
+// 0, the padded end of every raw entry (`boundary`), and — for raw entries whose data does not
+// fill its last block — offsets from the end of the data up to the padded end (`padding`: data
+// end, one byte further, one byte before the next header; `padRanges` the full ranges). Every file
+// before such a cut is complete; what is missing is every later entry and the end-of-archive footer.
 func tarCutPoints(entry []byte) (boundary, padding []int, padRanges [][2]int) {
-	cr := &countingReader{r: bytes.NewReader(entry)}
-	tr := tar.NewReader(cr)
 	boundary = []int{0}
-	for {
-		h, err := tr.Next()
-		if err != nil {
-			return
+	for pos := 0; pos+512 <= len(entry); {
+		h := entry[pos : pos+512]
+		if bytes.Equal(h, make([]byte, 512)) {
+			return // footer
 		}
-		size := 0
-		if h.Typeflag == tar.TypeReg {
-			size = int(h.Size)
+		size64, err := strconv.ParseInt(strings.Trim(string(h[124:136]), " \x00"), 8, 64)
+		if err != nil || size64 < 0 {
+			return // base-256 or damaged size field: stop, what was found so far is still right
 		}
-		dataEnd := cr.n + size
-		padded := cr.n + (size+511)/512*512
+		size := int(size64)
+		switch h[156] {
+		case tar.TypeDir, tar.TypeSymlink, tar.TypeLink, tar.TypeChar, tar.TypeBlock, tar.TypeFifo:
+			size = 0 // no data follows these headers whatever the size field says
+		}
+		dataEnd := pos + 512 + size
+		padded := pos + 512 + (size+511)/512*512
 		if padded > len(entry) {
 			return
 		}
 		boundary = append(boundary, padded)
 		if size > 0 && dataEnd < padded {
 			padRanges = append(padRanges, [2]int{dataEnd, padded})
-		}
-		for _, k := range []int{dataEnd, dataEnd + 1, padded - 1} {
-			if size > 0 && k >= dataEnd && k < padded {
-				padding = append(padding, k)
+			for _, k := range []int{dataEnd, dataEnd + 1, padded - 1} {
+				if k >= dataEnd && k < padded {
+					padding = append(padding, k)
+				}
 			}
 		}
-		if _, err := io.Copy(io.Discard, tr); err != nil {
-			return
-		}
+		pos = padded
 	}
+	return
 }
 
 // silentOffsets picks the offsets for retrieve commands that stop early but exit 0: offset 0, the
